@@ -1,2 +1,60 @@
-(* C01 placeholder: statements follow once Proofs/StoreProofs.v is in. *)
-From MV Require Import Base.Prelude Model.Store.
+(* C01 Acknowledged operations are never lost (crash-free histories).
+   Model: Model/Store.v (write path over the log's specification, Properties/C05);
+   reference model: Model/StoreSpec.v; proofs: Proofs/StoreProofs.v. *)
+From MV Require Import Base.Prelude Model.Store Model.StoreSpec Proofs.StoreProofs.
+Local Open Scope N_scope.
+
+(* For EVERY history over put (whole / chunked, any sizes) / update (with or without payload)
+   / delete / commit / close+reopen / exit-without-commit+reopen (log replay), and for EVERY
+   timing of automatic checkpoints (the `auto` oracle of each mutating op) and every number
+   of log records a commit adds itself (`extra`):
+   the frames the memory exposes (committed table with the pending log records applied) are
+   exactly the reference table obtained by applying the acknowledged calls one after the other
+   -- same ids, URIs, status, content tags, supersession links, chunk parents, order -- and
+   whenever nothing is pending (after commit, reopen, replay, automatic checkpoint) the
+   committed table itself equals it.
+   Side condition run_ok: a put does not ask for the internal DocumentChunk role and an
+   acknowledged update does not target a DocumentChunk frame (both excluded from the
+   generator too; an update of a chunk frame is re-parented by apply_records' second pass,
+   which the reference model does not describe): in that sense this theorem is *partial*. *)
+Theorem C01_view_is_reference_partial :
+  forall ops : list sop,
+    let s := fst (srun store0 ops) in
+    let xs := combine ops (snd (srun store0 ops)) in
+    run_ok [] xs = true ->
+    view s = ref_run [] xs /\ (pending s = [] -> committed s = ref_run [] xs).
+Proof. intros ops s xs Hok. destruct (reachable_facts ops Hok) as (H1 & _ & _ & H4). split; assumption. Qed.
+Print Assumptions C01_view_is_reference_partial.
+
+(* the same from any state satisfying the invariant: one step of the model is one step of
+   the reference model, whatever happened before *)
+Theorem C01_step_refines :
+  forall s R op, J s R ->
+    let '(s1, o) := sstep s op in ref_ok R (op, o) = true -> J s1 (ref_step R (op, o)).
+Proof. exact sstep_refines. Qed.
+Print Assumptions C01_step_refines.
+
+(* commit placement is invisible: committing (explicitly, automatically, on drop, by replay)
+   never changes the exposed frames *)
+Theorem C01_commit_invisible :
+  forall s R extra, J s R -> view (do_commit s extra) = view s /\ committed (do_commit s extra) = view s.
+Proof.
+  intros s R extra HJ. rewrite (J_view _ _ HJ). split; [apply J_view, J_commit; assumption|].
+  unfold do_commit. cbn [committed]. apply J_view. assumption.
+Qed.
+Print Assumptions C01_commit_invisible.
+
+(* Non-vacuity: a history with a chunked document, updates with and without payload, a delete,
+   an automatic checkpoint, a crash with replay and a reopen; the side condition holds and the
+   final table is the expected one. *)
+Definition demo : list sop :=
+  [OPut (Some 1) 1000 0 0 None; OPut None 2000 2 0 (Some 1); OUpdate 0 (Some 3000) None None; OCrash 1;
+   OUpdate 1 None (Some 7) None; ODelete 9 None; OPut None 4000 0 0 None; OReopen 1; ODelete 0 None; ODelete 5 None; OCommit 1].
+Example C01_nonvacuous :
+  run_ok [] (combine demo (snd (srun store0 demo))) = true /\
+  map (fun f => (f_id f, f_status f, f_tag f, f_superseded_by f, f_parent f)) (view (fst (srun store0 demo))) =
+    [(0, 1, 1000, Some 4, None); (1, 1, 2000, Some 5, None); (2, 0, 2001, None, Some 1); (3, 0, 2002, None, Some 1);
+     (4, 0, 3000, None, None); (5, 2, 2000, None, None); (6, 0, 4000, None, None)] /\
+  map (fun o => fst (fst o)) (snd (srun store0 demo)) =
+    [Ok 1; Ok 2; Ok 6; Ok 0; Ok 8; Err 1; Ok 9; Ok 0; Err 2; Ok 11; Ok 0].
+Proof. vm_compute. repeat split. Qed.
